@@ -36,6 +36,11 @@ pub struct Import {
     pub from: String,
     pub symbols: Vec<String>,
     pub with_oid: bool,
+    /// module reference written in the FROM clause when it differs from the exporter's real name
+    /// (X.680 allows that when the object identifier says which module is meant); only rendered
+    /// together with the identifier
+    #[serde(default)]
+    pub alias: Option<String>,
 }
 
 #[derive(Clone, Debug, Serialize, Deserialize, PartialEq)]
@@ -117,12 +122,14 @@ impl Module {
                 s.push_str(&self.indent);
                 s.push_str(&imp.symbols.join(", "));
                 s.push_str(" FROM ");
-                s.push_str(&imp.from);
-                if imp.with_oid {
-                    if let Some(o) = all.iter().find(|m| m.name == imp.from).and_then(|m| m.oid.clone()) {
-                        s.push(' ');
-                        s.push_str(&o);
-                    }
+                let oid = if imp.with_oid { all.iter().find(|m| m.name == imp.from).and_then(|m| m.oid.clone()) } else { None };
+                match (&imp.alias, &oid) {
+                    (Some(alias), Some(_)) => s.push_str(alias),
+                    _ => s.push_str(&imp.from),
+                }
+                if let Some(o) = oid {
+                    s.push(' ');
+                    s.push_str(&o);
                 }
             }
             s.push(';');
@@ -282,6 +289,9 @@ pub struct GenCfg {
     /// values whose governing type is not a plain type: a class field (`v CLASS.&id ::= 5`) and a
     /// selection type (`v alt < Choice ::= 7`)
     pub odd_governors: bool,
+    /// an IMPORTS clause that carries the exporter's object identifier may name the module by
+    /// another module reference than its real one
+    pub import_alias: bool,
 }
 
 impl GenCfg {
@@ -305,6 +315,7 @@ impl GenCfg {
             recursion_bias: false,
             warnful: false,
             odd_governors: false,
+            import_alias: false,
             components_of: false,
         }
     }
@@ -1276,7 +1287,11 @@ pub fn generate(rng: &mut Rng, cfg: &GenCfg) -> ModuleSet {
         let imports: Vec<Import> = ctx
             .used_imports
             .iter()
-            .map(|(from, syms)| Import { from: from.clone(), symbols: syms.iter().cloned().collect(), with_oid: g.rng.chance(1, 2) })
+            .map(|(from, syms)| {
+                let with_oid = g.rng.chance(1, 2);
+                let alias = if cfg.import_alias && with_oid && g.rng.chance(1, 2) { Some(format!("{from}-V2")) } else { None };
+                Import { from: from.clone(), symbols: syms.iter().cloned().collect(), with_oid, alias }
+            })
             .collect();
         done_types[mi] = ctx.types.clone();
         class_syms[mi] = assigns
